@@ -718,6 +718,8 @@ impl<C: CellType> OptRebuild<'_, C> {
                 .iter()
                 .all(|x| !other_pending.contains(x) || constant.contains(x))
         {
+            #[cfg(feature = "verif")]
+            crate::verif::note("motion.after");
             return [None, None, Some(pending)];
         }
         if !reads.contains(&var) && complete {
@@ -729,6 +731,16 @@ impl<C: CellType> OptRebuild<'_, C> {
                         let mut after = other;
                         let expr_neg_one = expr.add(Expr::val(C::NEG_ONE));
                         for (initial, increment) in linears {
+                            #[cfg(feature = "verif")]
+                            crate::verif::note(if increment.half().is_some() {
+                                "motion.triangular_half_inc"
+                            } else if expr.half().is_some() {
+                                "motion.triangular_half_n"
+                            } else if expr_neg_one.half().is_some() {
+                                "motion.triangular_half_n1"
+                            } else {
+                                "motion.triangular_kept"
+                            });
                             if let Some(inc) = increment.half() {
                                 before = expr
                                     .mul(initial)
@@ -745,6 +757,8 @@ impl<C: CellType> OptRebuild<'_, C> {
                                 after = after.add(initial);
                             }
                         }
+                        #[cfg(feature = "verif")]
+                        crate::verif::note("motion.linear");
                         return [
                             Some(Expr::var(var).add(before)),
                             Some(Expr::var(var).add(after)),
@@ -752,6 +766,8 @@ impl<C: CellType> OptRebuild<'_, C> {
                         ];
                     } else if let Some(c) = expr.constant() {
                         if inc.is_zero() {
+                            #[cfg(feature = "verif")]
+                            crate::verif::note("motion.geometric_pure");
                             return [
                                 Some(Expr::val(mul.wrapping_pow(c)).mul(Expr::var(var))),
                                 None,
@@ -764,6 +780,8 @@ impl<C: CellType> OptRebuild<'_, C> {
                                 .wrapping_add(C::NEG_ONE)
                                 .wrapping_div(mul.wrapping_add(C::NEG_ONE))
                             {
+                                #[cfg(feature = "verif")]
+                                crate::verif::note("motion.geometric_inc");
                                 return [
                                     Some(
                                         Expr::val(mul.wrapping_pow(c))
@@ -779,6 +797,8 @@ impl<C: CellType> OptRebuild<'_, C> {
                 }
             }
         }
+        #[cfg(feature = "verif")]
+        crate::verif::note("motion.kept_in_loop");
         [None, Some(pending), None]
     }
 
@@ -791,6 +811,19 @@ impl<C: CellType> OptRebuild<'_, C> {
         after: Vec<(isize, Expr<C>)>,
         constant: &HashSet<isize>,
     ) {
+        #[cfg(feature = "verif")]
+        crate::verif::note(if loop_anal.at_most_once {
+            "emit.inline"
+        } else if loop_anal.finite
+            && sub_state.shift == self.shift
+            && sub_state.insts.is_empty()
+            && sub_state.pending.len() == 1
+            && sub_state.pending.contains_key(&cond)
+        {
+            "emit.zero_load"
+        } else {
+            "emit.loop"
+        });
         if loop_anal.at_most_once {
             self.inline(sub_state);
         } else if loop_anal.finite
@@ -1142,6 +1175,18 @@ impl<'a, C: CellType> OptRebuild<'a, C> {
                         OptRebuild::new(self.shift, Some(cond), OptParent::Parent(self), sub_anal);
                     sub_state.rebuild_block(block);
                     let loop_anal = self.analyze_loop(&sub_state, cond, is_loop);
+                    #[cfg(feature = "verif")]
+                    crate::verif::note(match &loop_anal {
+                        l if l.never => "loop.never",
+                        l if l.no_effect && l.finite && l.at_most_once => "loop.no_return",
+                        l if l.no_effect && !l.finite => "loop.infinite",
+                        l if l.expr.as_ref().is_some_and(|e| e.constant().is_some()) => {
+                            "loop.finite_const"
+                        }
+                        l if l.expr.is_some() => "loop.finite_symbolic",
+                        l if l.at_most_once => "loop.at_most_once",
+                        _ => "loop.unknown",
+                    });
                     if !loop_anal.never {
                         let mut after = Vec::new();
                         let mut before = Vec::new();
@@ -1213,6 +1258,8 @@ impl<'a, C: CellType> OptRebuild<'a, C> {
                                 after,
                                 &constant,
                             );
+                            #[cfg(feature = "verif")]
+                            crate::verif::note("emit.if_wrapper");
                             self.loop_or_if(
                                 if_state,
                                 cond,
@@ -1286,6 +1333,8 @@ impl<'a, C: CellType> OptDseState<'a, C> {
                     let mut to_remove = HashSet::new();
                     for (var, _) in calcs.iter() {
                         if self.will_be_overwritten(*var) {
+                            #[cfg(feature = "verif")]
+                            crate::verif::note("dse.store_removed");
                             to_remove.insert(*var);
                         } else {
                             self.write(*var);
